@@ -30,6 +30,15 @@ static inline int gej_ok(const secp256k1_gej *g) { return fe_mag(&g->x, 4) && fe
 # include "assumed.h"
 #endif
 
+
+/* representation predicates on a LOCAL COPY: the shared ge_ok/gej_ok take the address of sub-objects
+ * (&g->x); applied to an array element at a symbolic index (pubs[npub]) that makes CBMC read the whole
+ * 16 KB array bytewise.  Copying the element first keeps every access a plain index/member access. */
+static inline int rp_gej_ok(const secp256k1_gej *g) { secp256k1_gej t = *g; return gej_ok(&t); }
+static inline int rp_ge_ok(const secp256k1_ge *g) { secp256k1_ge t = *g; return ge_ok(&t); }
+static inline int rp_ge_ok1(const secp256k1_ge *g) { secp256k1_ge t = *g; return ge_ok1(&t); }
+static inline int rp_scalar_ok(const secp256k1_scalar *a) { secp256k1_scalar t = *a; return scalar_ok(&t); }
+
 #define RP_OLD(e) __CPROVER_old(e)
 #define RP_KEEP(g) ((g) == __CPROVER_old(g))
 #define GE_EQ(g, p) (FE_EQ((g).x, (p)->x) && FE_EQ((g).y, (p)->y) && (g).infinity == (p)->infinity)
@@ -62,7 +71,7 @@ static int secp256k1_ge_set_xquad(secp256k1_ge *r, const secp256k1_fe *x)
 __CPROVER_requires(__CPROVER_w_ok(r, sizeof(*r)) && __CPROVER_r_ok(x, sizeof(*x)) && fe_mag(x, 1))
 __CPROVER_assigns(*r, g_xq)
 __CPROVER_ensures(__CPROVER_return_value == 0 || __CPROVER_return_value == 1)
-__CPROVER_ensures(ge_ok1(r) && r->infinity == 0 && FE_EQ_OLD(r->x, *x))          /* r->x = *x is a copy in the code, not algebra */
+__CPROVER_ensures(rp_ge_ok1(r) && r->infinity == 0 && FE_EQ_OLD(r->x, *x))          /* r->x = *x is a copy in the code, not algebra */
 __CPROVER_ensures(g_xq_n == __CPROVER_old(g_xq_n) + 1 && g_xq_and == (__CPROVER_old(g_xq_and) && __CPROVER_return_value))
 __CPROVER_ensures(__CPROVER_old(g_xq_n) == g_xq_watch
     ? (g_xq_hit == 1 && g_xq_v == __CPROVER_return_value && FE_EQ_OLD(g_xq_x, *x) && GE_EQ(g_xq_r, r))
@@ -103,9 +112,9 @@ struct g_ag_log { int n; int hit; int last_inf /* infinity flag of the most rece
 int g_ag_watch;
 static void secp256k1_gej_add_ge_var(secp256k1_gej *r, const secp256k1_gej *a, const secp256k1_ge *b, secp256k1_fe *rzr)
 __CPROVER_requires(__CPROVER_w_ok(r, sizeof(*r)) && __CPROVER_r_ok(a, sizeof(*a)) && __CPROVER_r_ok(b, sizeof(*b)) && rzr == NULL)
-__CPROVER_requires(gej_ok(a) && ge_ok(b))
+__CPROVER_requires(rp_gej_ok(a) && rp_ge_ok(b))
 __CPROVER_assigns(*r, g_ag)
-__CPROVER_ensures(gej_ok(r))
+__CPROVER_ensures(rp_gej_ok(r))
 __CPROVER_ensures(g_ag_n == __CPROVER_old(g_ag_n) + 1 && g_ag_last_inf == r->infinity)
 __CPROVER_ensures(__CPROVER_old(g_ag_n) == g_ag_watch
     ? (g_ag_hit == 1 && g_ag_rp == r && g_ag_ap == a && g_ag_bp == b && GE_EQ_OLD(g_ag_b, b) && GEJ_EQ(g_ag_r, r))
@@ -115,15 +124,15 @@ __CPROVER_ensures(__CPROVER_old(g_ag_n) == g_ag_watch
 #ifdef RP_ADD_VAR
 static void secp256k1_gej_add_var(secp256k1_gej *r, const secp256k1_gej *a, const secp256k1_gej *b, secp256k1_fe *rzr)
 __CPROVER_requires(__CPROVER_w_ok(r, sizeof(*r)) && __CPROVER_r_ok(a, sizeof(*a)) && __CPROVER_r_ok(b, sizeof(*b)) && rzr == NULL)
-__CPROVER_requires(gej_ok(a) && gej_ok(b))
+__CPROVER_requires(rp_gej_ok(a) && rp_gej_ok(b))
 __CPROVER_assigns(*r)
-__CPROVER_ensures(gej_ok(r))
+__CPROVER_ensures(rp_gej_ok(r))
 ;
 static void secp256k1_gej_double_var(secp256k1_gej *r, const secp256k1_gej *a, secp256k1_fe *rzr)
 __CPROVER_requires(__CPROVER_w_ok(r, sizeof(*r)) && __CPROVER_r_ok(a, sizeof(*a)) && rzr == NULL)
-__CPROVER_requires(gej_ok(a))
+__CPROVER_requires(rp_gej_ok(a))
 __CPROVER_assigns(*r)
-__CPROVER_ensures(gej_ok(r))
+__CPROVER_ensures(rp_gej_ok(r))
 ;
 #endif
 
@@ -135,9 +144,9 @@ struct g_ps_log { int n; uint64_t gn0; const secp256k1_ge * genp0; secp256k1_gej
 #define g_ps_genp0 g_ps.genp0
 #define g_ps_rp0 g_ps.rp0
 static void secp256k1_pedersen_ecmult_small(secp256k1_gej *r, uint64_t gn, const secp256k1_ge* genp)
-__CPROVER_requires(__CPROVER_w_ok(r, sizeof(*r)) && __CPROVER_r_ok(genp, sizeof(*genp)) && ge_ok(genp))
+__CPROVER_requires(__CPROVER_w_ok(r, sizeof(*r)) && __CPROVER_r_ok(genp, sizeof(*genp)) && rp_ge_ok(genp))
 __CPROVER_assigns(*r, g_ps)
-__CPROVER_ensures(gej_ok(r))
+__CPROVER_ensures(rp_gej_ok(r))
 __CPROVER_ensures(g_ps_n == __CPROVER_old(g_ps_n) + 1)
 __CPROVER_ensures(__CPROVER_old(g_ps_n) == 0 ? (g_ps_gn0 == gn && g_ps_genp0 == genp && g_ps_rp0 == r) : (RP_KEEP(g_ps_gn0) && RP_KEEP(g_ps_genp0) && RP_KEEP(g_ps_rp0)))
 ;
@@ -154,9 +163,9 @@ struct g_pd_log { int n; int hit; uint64_t value; secp256k1_scalar sec; const se
 #define g_pd_inf g_pd.inf
 int g_pd_watch;
 static void secp256k1_pedersen_ecmult(const secp256k1_ecmult_gen_context *ecmult_gen_ctx, secp256k1_gej *rj, const secp256k1_scalar *sec, uint64_t value, const secp256k1_ge* genp)
-__CPROVER_requires(ecmult_gen_ctx != NULL && __CPROVER_w_ok(rj, sizeof(*rj)) && __CPROVER_r_ok(sec, sizeof(*sec)) && __CPROVER_r_ok(genp, sizeof(*genp)) && ge_ok(genp))
+__CPROVER_requires(ecmult_gen_ctx != NULL && __CPROVER_w_ok(rj, sizeof(*rj)) && __CPROVER_r_ok(sec, sizeof(*sec)) && __CPROVER_r_ok(genp, sizeof(*genp)) && rp_ge_ok(genp))
 __CPROVER_assigns(*rj, g_pd)
-__CPROVER_ensures(gej_ok(rj))
+__CPROVER_ensures(rp_gej_ok(rj))
 __CPROVER_ensures(g_pd_n == __CPROVER_old(g_pd_n) + 1)
 __CPROVER_ensures(__CPROVER_old(g_pd_n) == g_pd_watch
     ? (g_pd_hit == 1 && g_pd_value == value && SC_EQ_OLD(g_pd_sec, *sec) && g_pd_secp == sec && g_pd_genp == genp && g_pd_rp == rj && g_pd_inf == rj->infinity)
@@ -177,7 +186,7 @@ struct g_pe_log { int n; int exp; size_t rings; size_t rs_k; secp256k1_gej * pub
 #define g_pe_genp g_pe.genp
 static void secp256k1_rangeproof_pub_expand(secp256k1_gej *pubs, int exp, size_t *rsizes, size_t rings, const secp256k1_ge* genp)
 __CPROVER_requires(exp < 19 && rings >= 1 && rings <= 32)
-__CPROVER_requires(__CPROVER_r_ok(rsizes, rings * sizeof(size_t)) && __CPROVER_r_ok(genp, sizeof(*genp)) && ge_ok(genp))
+__CPROVER_requires(__CPROVER_r_ok(rsizes, rings * sizeof(size_t)) && __CPROVER_r_ok(genp, sizeof(*genp)) && rp_ge_ok(genp))
 __CPROVER_requires(g_rp_k < rings ==> (rsizes[g_rp_k] >= 1 && rsizes[g_rp_k] <= 4))
 __CPROVER_requires(__CPROVER_w_ok(pubs, 128 * sizeof(secp256k1_gej)))
 __CPROVER_assigns(__CPROVER_object_whole(pubs), g_pe)
@@ -212,7 +221,7 @@ __CPROVER_requires(hash_ctx != NULL && __CPROVER_r_ok(e0, 32) && nrings >= 1 && 
 __CPROVER_requires(__CPROVER_r_ok(rsizes, nrings * sizeof(size_t)))
 __CPROVER_requires(g_rp_k < nrings ==> (rsizes[g_rp_k] >= 1 && rsizes[g_rp_k] <= 4))
 __CPROVER_requires(__CPROVER_r_ok(s, rp_sum(rsizes, nrings) * sizeof(secp256k1_scalar)) && __CPROVER_r_ok(pubs, rp_sum(rsizes, nrings) * sizeof(secp256k1_gej)))
-__CPROVER_requires(g_rp_k < rp_sum(rsizes, nrings) ==> scalar_ok(&s[g_rp_k]))
+__CPROVER_requires(g_rp_k < rp_sum(rsizes, nrings) ==> rp_scalar_ok(&s[g_rp_k]))
 __CPROVER_requires(evalues == NULL || __CPROVER_w_ok(evalues, rp_sum(rsizes, nrings) * sizeof(secp256k1_scalar)))
 __CPROVER_assigns(evalues != NULL: __CPROVER_object_whole(evalues))
 __CPROVER_assigns(g_bv)
@@ -311,12 +320,12 @@ __CPROVER_ensures(__CPROVER_old(g_gr_n) == 0
 static void secp256k1_rangeproof_recover_x(secp256k1_scalar *x, const secp256k1_scalar *k, const secp256k1_scalar *e, const secp256k1_scalar *s)
 __CPROVER_requires(__CPROVER_w_ok(x, sizeof(*x)) && __CPROVER_r_ok(k, sizeof(*k)) && __CPROVER_r_ok(e, sizeof(*e)) && __CPROVER_r_ok(s, sizeof(*s)))
 __CPROVER_assigns(*x)
-__CPROVER_ensures(scalar_ok(x))
+__CPROVER_ensures(rp_scalar_ok(x))
 ;
 static void secp256k1_rangeproof_recover_k(secp256k1_scalar *k, const secp256k1_scalar *x, const secp256k1_scalar *e, const secp256k1_scalar *s)
 __CPROVER_requires(__CPROVER_w_ok(k, sizeof(*k)) && __CPROVER_r_ok(x, sizeof(*x)) && __CPROVER_r_ok(e, sizeof(*e)) && __CPROVER_r_ok(s, sizeof(*s)))
 __CPROVER_assigns(*k)
-__CPROVER_ensures(scalar_ok(k))
+__CPROVER_ensures(rp_scalar_ok(k))
 ;
 #endif
 
@@ -355,7 +364,7 @@ __CPROVER_ensures(g_rp_b < n ==> ((unsigned char*)dst)[g_rp_b] == ((const unsign
 static void secp256k1_scalar_set_b32(secp256k1_scalar *r, const unsigned char *b32, int *overflow)
 __CPROVER_requires(__CPROVER_w_ok(r, sizeof(*r)) && __CPROVER_r_ok(b32, 32) && (overflow == NULL || __CPROVER_w_ok(overflow, sizeof(int))))
 __CPROVER_assigns(*r) __CPROVER_assigns(overflow != NULL: *overflow)
-__CPROVER_ensures(scalar_ok(r))
+__CPROVER_ensures(rp_scalar_ok(r))
 __CPROVER_ensures(overflow != NULL ==> (*overflow == 0 || *overflow == 1))
 __CPROVER_ensures(sval(r) == (be256(b32) >= N_() ? be256(b32) - N_() : be256(b32)) && (overflow != NULL ==> *overflow == (be256(b32) >= N_())))
 ;
@@ -377,7 +386,16 @@ __CPROVER_ensures(__CPROVER_return_value == (be256(a) < P_()) && fval(r) == be25
  * makes up to 31 + 128 such calls. */
 #include "src/field_impl.h"
 #include "src/scalar_impl.h"
+#include "src/group_impl.h"
 uint64_t nondet_rp_u64(void); int nondet_rp_int(void);
+/* Call-site ADAPTER (no abstraction): the real secp256k1_gej_set_ge runs on a local temporary which is then
+ * struct-assigned to the destination.  Same result; avoids writes through a pointer to a sub-object of
+ * pubs[npub] at a symbolic index (CBMC turns those into byte_updates of the whole 16 KB array). */
+static void rp_adapt_gej_set_ge(secp256k1_gej *r, const secp256k1_ge *a) {
+    secp256k1_gej t;
+    secp256k1_gej_set_ge(&t, a);
+    *r = t;
+}
 const unsigned char *g_sb_wp;            /* watch pointer: never assigned by code or stubs */
 struct g_sb_log { int n, hit, wovf, any /* disjunction of all overflow verdicts so far */; secp256k1_scalar wr; } g_sb;
 #define g_sb_n g_sb.n
@@ -394,7 +412,7 @@ static void rp_stub_scalar_set_b32(secp256k1_scalar *r, const unsigned char *b32
     } else {
         secp256k1_scalar t;
         t.d[0] = nondet_rp_u64(); t.d[1] = nondet_rp_u64(); t.d[2] = nondet_rp_u64(); t.d[3] = nondet_rp_u64(); ov = nondet_rp_int();
-        __CPROVER_assume(scalar_ok(&t) && (ov == 0 || ov == 1));      /* invariant proved in C10.leaf_scalar_set_b32 */
+        __CPROVER_assume(rp_scalar_ok(&t) && (ov == 0 || ov == 1));      /* invariant proved in C10.leaf_scalar_set_b32 */
         *r = t;
     }
     if (overflow != NULL) { *overflow = ov; g_sb.any = g_sb.any || ov; }
@@ -425,6 +443,7 @@ static int rp_stub_fe_set_b32_limit(secp256k1_fe *r, const unsigned char *a) {
 }
 #define secp256k1_scalar_set_b32 rp_stub_scalar_set_b32
 #define secp256k1_fe_impl_set_b32_limit rp_stub_fe_set_b32_limit
+#define secp256k1_gej_set_ge rp_adapt_gej_set_ge
 #endif
 #ifdef RP_GET_B32
 /* replacement form used by the signing units: the frame is over-approximated to the whole destination
@@ -465,10 +484,10 @@ struct g_em_log { int n; int hit; int rinf; const secp256k1_gej * ap; const secp
 #define g_em_na g_em.na
 int g_em_watch;
 static void secp256k1_ecmult(secp256k1_gej *r, const secp256k1_gej *a, const secp256k1_scalar *na, const secp256k1_scalar *ng)
-__CPROVER_requires(__CPROVER_w_ok(r, sizeof(*r)) && __CPROVER_r_ok(a, sizeof(*a)) && gej_ok(a))
-__CPROVER_requires(__CPROVER_r_ok(na, sizeof(*na)) && scalar_ok(na) && __CPROVER_r_ok(ng, sizeof(*ng)) && scalar_ok(ng))
+__CPROVER_requires(__CPROVER_w_ok(r, sizeof(*r)) && __CPROVER_r_ok(a, sizeof(*a)) && rp_gej_ok(a))
+__CPROVER_requires(__CPROVER_r_ok(na, sizeof(*na)) && rp_scalar_ok(na) && __CPROVER_r_ok(ng, sizeof(*ng)) && rp_scalar_ok(ng))
 __CPROVER_assigns(*r, g_em)
-__CPROVER_ensures(gej_ok(r))
+__CPROVER_ensures(rp_gej_ok(r))
 __CPROVER_ensures(g_em_n == __CPROVER_old(g_em_n) + 1)
 __CPROVER_ensures(__CPROVER_old(g_em_n) == g_em_watch
     ? (g_em_hit == 1 && g_em_rinf == r->infinity && g_em_ap == a && g_em_ngp == ng && SC_EQ_OLD(g_em_na, *na))
@@ -480,9 +499,9 @@ struct g_sgw_log { int n; int hit; secp256k1_ge r; } g_sgw;
 #define g_sg_r g_sgw.r
 int g_sg_watch;
 static void secp256k1_ge_set_gej_var(secp256k1_ge *r, secp256k1_gej *a)
-__CPROVER_requires(__CPROVER_w_ok(r, sizeof(*r)) && __CPROVER_rw_ok(a, sizeof(*a)) && gej_ok(a))
+__CPROVER_requires(__CPROVER_w_ok(r, sizeof(*r)) && __CPROVER_rw_ok(a, sizeof(*a)) && rp_gej_ok(a))
 __CPROVER_assigns(*r, *a, g_sgw)
-__CPROVER_ensures(ge_ok1(r) && gej_ok(a) && r->infinity == __CPROVER_old(a->infinity))
+__CPROVER_ensures(rp_ge_ok1(r) && rp_gej_ok(a) && r->infinity == __CPROVER_old(a->infinity))
 __CPROVER_ensures(g_sg_n == __CPROVER_old(g_sg_n) + 1)
 __CPROVER_ensures(__CPROVER_old(g_sg_n) == g_sg_watch ? (g_sg_hit == 1 && GE_EQ(g_sg_r, r)) : (RP_KEEP(g_sg_hit) && GE_KEEP(g_sg_r)))
 ;
